@@ -4,7 +4,9 @@ Decided completely: the ten functions are finite decision tables; they are
 extracted with sa.dectable and the five obligations per scale are discharged
 by exact interval algebra over the integers.
 """
-from ..dectable import IntSet, int_table, label_table
+import ast
+
+from ..dectable import IntSet, int_table, label_lookup_table, label_table, sym_int_table
 from ..loader import AnalysisError
 from ..report import key
 
@@ -39,8 +41,38 @@ def run(ctx):
         run.anchor(tv.id, tv.where)
         if len(fv.params) != 1 or len(tv.params) != 1:
             raise AnalysisError("scale function signature changed: %s / %s" % (fv.id, tv.id))
-        rows = int_table(fv.node, fv.params[0])
-        ltab, ldefault = label_table(tv.node, tv.params[0])
+        # the comparison-chain form is read directly; anything else (arithmetic on the value, table lookups) goes through
+        # the symbolic reader -- both give exact regions, neither executes the code
+        try:
+            rows = int_table(fv.node, fv.params[0])
+            # self-check of the two readers against each other (same function, two independent derivations)
+            rows2 = sym_int_table(fv.node, fv.params[0])
+
+            def by_outcome(rs):
+                d = {}
+                for r, oc, _ln, _raw in rs:
+                    d[oc] = d.get(oc, IntSet.empty()).union(r)
+                return {k: v.to_json() for k, v in d.items() if not v.is_empty()}
+            if by_outcome(rows) != by_outcome(rows2):
+                raise AnalysisError("dectable: the chain reader and the symbolic reader disagree on %s" % fv.id)
+        except AnalysisError as e:
+            if "disagree" in str(e):
+                raise
+            rows = sym_int_table(fv.node, fv.params[0])
+        try:
+            ltab, ldefault = label_table(tv.node, tv.params[0])
+        except AnalysisError:
+            from ..tableeval import Evaluator
+            ev = Evaluator(prog, allow_dyn=True)
+
+            def resolve(name, _scope=tv.scope):
+                b = prog.lookup(_scope, name)
+                try:
+                    v = ev.eval(ast.Name(id=name, ctx=ast.Load()), _scope)
+                except AnalysisError:
+                    return None
+                return v if isinstance(v, dict) else None
+            ltab, ldefault = label_lookup_table(tv.node, tv.params[0], resolve)
         tables[sname] = {"from_value": [{"region": r.to_json(), "outcome": list(oc)} for r, oc, ln, _ in rows],
                          "to_value": {k: list(v) for k, v in ltab.items()}, "to_value_else": list(ldefault)}
         base = key(m.relpath, sc["from_value"], "")
